@@ -83,7 +83,8 @@ def _lin(ops, pairs):
 
 def specs_from(mk, p):
     """shell specs for the params ls / Ks / Ms; optional `share` {i: j}: shell i sits on the centre of the earlier shell j;
-    optional `twin` {i: j}: shell i has the exponents and coefficients of the earlier shell j (a homonuclear pair)"""
+    optional `twin` {i: j}: shell i has the exponents and coefficients of the earlier shell j (a homonuclear pair);
+    optional `icenter` [labels]: the book-keeping atom label of each shell (carries no geometric meaning)"""
     share, twin = p.get("share", {}), p.get("twin", {})
     specs = []
     for i, (l, K, M) in enumerate(zip(p["ls"], p["Ks"], p["Ms"])):
@@ -94,6 +95,8 @@ def specs_from(mk, p):
             s = dict(l=l, A=coord if coord is not None else [mk.var(f"{tag}{x}") for x in "xyz"], exps=t["exps"], coeffs=t["coeffs"], tag=tag)
         else:
             s = shell_spec(mk, "ABCD"[i], l, K, M, coord=coord)
+        if p.get("icenter"):
+            s = dict(s, icenter=p["icenter"][i])
         specs.append(s)
     return specs
 
